@@ -38,8 +38,8 @@ var contentRunes = []rune{
 	0x10000, 0x1f600, 0x1d11e, 0xe0001, 0x10ffff,
 }
 
-var identStartRunes = []rune{'a', 'b', 'k', 'x', 'A', 'Z', '_', 0xe9, 0x3b1, 0x65e5, 0x212a, 0x130, 0x1d400}
-var identContRunes = []rune{'a', 'e', 'z', 'A', '0', '7', '_', 0xe9, 0x301, 0x65e5, 0x200c, 0xb7, 0x1d7ce}
+var identStartRunes = []rune{'a', 'b', 'k', 'x', 'A', 'Z', '_', 0xe9, 0x3b1, 0x65e5, 0x212a, 0x130, 0x1d400, 0x928, 0x995, 0xb95, 0x1780, 0x2160, 0x1885, 0x2118, 0x309b}
+var identContRunes = []rune{'a', 'e', 'z', 'A', '0', '7', '_', 0xe9, 0x301, 0x65e5, 0x200c, 0xb7, 0x1d7ce, 0x93e, 0x9be, 0xbbe, 0x17b6, 0x903, 0x966, 0x203f, 0x1369, 0x19da, 0x387, 0xff10, 0x200d}
 
 // spellRune writes r inside a string literal (inString) or an identifier, in a random form.
 func (g *pathGen) spellRune(r rune, inString bool) string {
@@ -277,7 +277,7 @@ func (g *pathGen) kw(w string) string {
 
 var regexPatterns = []string{"a", "^a.*b$", "[a-z]+", "(a|b)", "a{2,3}", `\d+`, "", ".", "a b", "(?i)x", `\\`, "[[:alpha:]]", "é", "日本", `\p{L}`,
 	// the characters every string-valued site of the printer has to escape (quote(), not %q)
-	"ring\a", "\U000f0001", "a\"b", "tab\there", "\x01", "\u200b", "\x7f", "\u0085", "\U0001f600", "\ufeff", "nl\nx", "\U0010ffff", "\ue000"}
+	"^a%%b$", "100%", "%d", "%v%s", "%!", "a%", "ring\a", "\U000f0001", "a\"b", "tab\there", "\x01", "\u200b", "\x7f", "\u0085", "\U0001f600", "\ufeff", "nl\nx", "\U0010ffff", "\ue000"}
 var badRegexPatterns = []string{"(", "[a", "a**", "a{2,1}", `\`, "(?P<n>", "[z-a]", `\8`, "*"}
 var flagForms = []string{"i", "s", "m", "q", "is", "ism", "iq", "qx", "xq", "sq", "ii", "imsq", ""}
 var badFlagForms = []string{"x", "ix", "z", "I", "i ", "isx"}
@@ -682,6 +682,33 @@ func (g *pathGen) emitRandom(cw *caseWriter) {
 				_ = res
 				cw.parseCase("reparse", []byte(p.String()))
 			}
+		}
+	case c < 44: // a valid path with one exotic character in front of or behind it (BOM, NBSP, U+2028, ...)
+		g.inFilter, g.inSubscript = 0, 0
+		src := g.join(g.genPath())
+		x := []string{"\ufeff", "\ufffe", "\u00a0", "\u2028", "\u2029", "\u3000", "\u200b", "\u0085", "\v", "\f", "\x1f", "\ufeff\ufeff", "\xef\xbb", "\xef\xbb\xbf "}[g.r.Intn(14)]
+		if g.chance(0.7) {
+			cw.parseCase("wrapped", append([]byte(x), src...))
+		} else {
+			cw.parseCase("wrapped", append(append([]byte{}, src...), x...))
+		}
+	case c < 45: // deep nesting: parentheses, unary signs, subscripts, filters
+		n := []int{20, 50, 50, 120, 300, 300, 800, 2000, 50, 120, 20, 10050}[g.r.Intn(12)]
+		kind := g.r.Intn(5)
+		if kind >= 1 && kind <= 3 && n > 300 {
+			n = 300 // these nest the resulting tree (and its JSON encoding) as deep as the input
+		}
+		switch kind {
+		case 0:
+			cw.parseCase("deep", []byte(strings.Repeat("(", n)+"$"+strings.Repeat(")", n)))
+		case 1:
+			cw.parseCase("deep", []byte(strings.Repeat("-", n)+"$"))
+		case 2:
+			cw.parseCase("deep", []byte(strings.Repeat("$[", n/2)+"0"+strings.Repeat("]", n/2)))
+		case 3:
+			cw.parseCase("deep", []byte("$"+strings.Repeat(" ? (exists(@", n/4)+strings.Repeat("))", n/4)))
+		default:
+			cw.parseCase("deep", []byte(strings.Repeat("(", n)+"$"+strings.Repeat(")", n-1)))
 		}
 	case c < 52: // byte-level mutation of a valid path
 		g.inFilter, g.inSubscript = 0, 0
